@@ -279,3 +279,86 @@ def validate_params():
 
 
 SCENARIOS += [key_conditions(), validate_params()]
+
+
+def verify_collect(subject_kind):
+    """PGPKey.verify without an explicit signature: which (signature, subject) pairs are examined"""
+    label = 'C01/PGPKey.verify[collect,%s]' % subject_kind
+
+    def gen(repo):
+        r = scn.Run(repo, 'pgpy.pgp.PGPKey', 'verify', label)
+        ex, st = r.ex, r.st
+        KEYC, SIGC, MSG, UIDC = 'pgpy.pgp.PGPKey', 'pgpy.pgp.PGPSignature', 'pgpy.pgp.PGPMessage', 'pgpy.pgp.PGPUID'
+        K0, K1 = z3.Ints('keyid_self keyid_sub1')
+        st.pc += [K0 != K1]
+        key, sub1 = E.VObj(KEYC, 'key'), E.VObj(KEYC, 'sub1')
+        FP = 'pgpy.types.Fingerprint'
+        r.hook(KEYC, 'fingerprint', lambda ex, st, o, a: [(st, E.VInt({'key': K0, 'sub1': K1}.get(o.ref, z3.Int('fp_' + o.ref)), enum=FP))])
+        r.hook(FP, 'keyid', lambda ex, st, o, a: [(st, E.VInt(o.z))])
+        r.hook(KEYC, 'subkeys', lambda ex, st, o, a: [(st, E.VDict([(E.VInt(K1), sub1)]) if o.ref == 'key' else E.VDict([]))])
+        sigs = [E.VObj(SIGC, 's%d' % i) for i in range(2)]
+        signer = {x.ref: z3.Int('signer_' + x.ref) for x in sigs}
+        r.hook(SIGC, 'signer', lambda ex, st, o, a: [(st, E.VInt(signer[o.ref]))])
+        r.hook(KEYC, 'check_soundness', scn.mconst(E.VInt(0, enum=SI)))
+        r.hook(KEYC, 'check_primitives', scn.mconst(E.VInt(0, enum=SI)))
+        r.set('key', '_key', E.VObj('pgpy.packet.packets.PubKeyV4', 'keypkt'))
+        r.hook(SIGC, 'hashdata', scn.method_hook(lambda ex, st, o, a: [(st, E.VBytes(z3.Const('HD', E.BYTES)))]))
+        r.hook(SIGC, '__sig__', scn.const(E.VStr(s=('opaque', 'sigints'))))
+        r.hook(SIGC, 'hash_algorithm', scn.const(E.VInt(8, enum='pgpy.constants.HashAlgorithm')))
+        r.hook('pgpy.packet.packets.PubKeyV4', 'verify', scn.mconst(E.VBool(z3.Bool('crypto_ok'))))
+
+        def add(ex, st, o, a):
+            st.ghost['examined'] = st.ghost.get('examined', ()) + (('own', a[0], a[2]),)
+            return [(st, E.VNone())]
+        r.hook('pgpy.types.SignatureVerification', 'add_sigsubj', scn.method_hook(add))
+
+        def subverify(ex, st, o, a):
+            st.ghost['examined'] = st.ghost.get('examined', ()) + (('sub', a[1], a[0]),)
+            return [(st, E.VObj('pgpy.types.SignatureVerification', 'subres'))]
+        r.hook(KEYC, 'verify', scn.method_hook(subverify))
+        r.hook('pgpy.types.SignatureVerification', '__and__', scn.method_hook(lambda ex, st, o, a: [(st, o)]))
+        if subject_kind == 'message':
+            subject = E.VObj(MSG, 'msg')
+            content = E.VBytes(z3.Const('CONTENT', E.BYTES))
+            r.hook(MSG, 'signatures', scn.const(ex.new_list(st, sigs)))
+            r.hook(MSG, 'message', scn.const(content))
+            expect_subj = {x.ref: content for x in sigs}
+        elif subject_kind == 'uid':
+            subject = E.VObj(UIDC, 'uid')
+            r.hook(UIDC, '__sig__', scn.const(ex.new_list(st, sigs)))
+            expect_subj = {x.ref: subject for x in sigs}
+        else:
+            # a key subject: its own signatures, then each user id's, each user attribute's, each subkey's
+            subject = E.VObj(KEYC, 'other')
+            ouid, oua, osub = E.VObj(UIDC, 'ouid'), E.VObj(UIDC, 'oua'), E.VObj(KEYC, 'osub')
+            sigs = [E.VObj(SIGC, 's%d' % i) for i in range(4)]
+            signer.update({x.ref: z3.Int('signer_' + x.ref) for x in sigs})
+            owner = {'other': [sigs[0]], 'ouid': [sigs[1]], 'oua': [sigs[2]], 'osub': [sigs[3]]}
+            r.hook(KEYC, '__sig__', lambda ex, st, o, a: [(st, ex.new_list(st, owner.get(o.ref, [])))])
+            r.hook(UIDC, '__sig__', lambda ex, st, o, a: [(st, ex.new_list(st, owner.get(o.ref, [])))])
+            r.hook(KEYC, 'userids', scn.const(ex.new_list(st, [ouid])))
+            r.hook(KEYC, 'userattributes', scn.const(ex.new_list(st, [oua])))
+            r.hook(KEYC, 'subkeys', lambda ex, st, o, a: [(st, E.VDict([(E.VInt(K1), sub1)]) if o.ref == 'key'
+                                                           else E.VDict([(E.VInt(z3.Int('keyid_osub')), osub)]) if o.ref == 'other' else E.VDict([]))])
+            expect_subj = {'s0': subject, 's1': ouid, 's2': oua, 's3': osub}
+        for pi, (s, v) in enumerate(r.call(key, [subject])):
+            mine = {x.ref: z3.Or(signer[x.ref] == K0, signer[x.ref] == K1) for x in sigs}
+            ex_ = s.ghost.get('examined', ())
+            if isinstance(v, E.Raise):
+                r.oblige(s, 'raises-PGPError-only-when-no-signature-names-this-key-or-a-subkey/p%d' % pi,
+                         z3.And(z3.BoolVal(v.exc.split(':')[0] == 'PGPError' and len(ex_) == 0), z3.Not(z3.Or(*mine.values()))), v.where)
+                continue
+            refs = [e[1].ref for e in ex_]
+            r.oblige(s, 'a-result-is-returned-only-after-examining-a-signature(an-empty-result-would-be-truthy)/p%d' % pi, z3.BoolVal(len(ex_) > 0))
+            r.oblige(s, 'each-signature-examined-at-most-once-in-order/p%d' % pi, z3.BoolVal(refs == sorted(set(refs))))
+            for x in sigs:
+                r.oblige(s, 'examined-iff-issued-by-this-key-or-a-subkey(%s)/p%d' % (x.ref, pi), z3.BoolVal(x.ref in refs) == mine[x.ref])
+            for kind, sg, sb in ex_:
+                r.oblige(s, 'subject-of-%s-is-the-given-subject/p%d' % (sg.ref, pi), z3.BoolVal(sb is expect_subj[sg.ref]))
+                r.oblige(s, 'subkey-signature-delegated,own-signature-checked-here(%s)/p%d' % (sg.ref, pi),
+                         (signer[sg.ref] == K1) if kind == 'sub' else (signer[sg.ref] == K0))
+        return r.result()
+    return Scenario(label, 'pgpy.pgp.PGPKey.verify', gen, props=('C01', 'C16', 'C17'))
+
+
+SCENARIOS += [verify_collect('message'), verify_collect('uid'), verify_collect('key')]
